@@ -181,10 +181,42 @@ package kv
 //@   requires forall j int :: imp(0 <= j && j < len(persists), persists[j] != nil)
 //@   modifies *maxVersion
 //@   ensures strict: forall j int :: imp(err == nil && !skipUnreadable && 0 <= j && j < len(roots), has(result1, roots[j]))
-//@   ensures tree: imp(err == nil, result0 != nil && result0.Mast != nil && result0.Created != nil && result1 != nil)
+//@   ensures tree: imp(err == nil, result0 != nil && fresh(result0) && result0.Mast != nil && fresh(result0.Mast) && result0.Created != nil && result1 != nil && fresh(result1))
 //@   ensures failed: imp(err != nil, result0 == nil)
 //@   loop 1 modifies contents(mergedRoots), *maxVersion
 //@   loop 1 invariant -1 <= rangeindex && rangeindex < len(roots_cur) && mergedRoots != nil && fresh(mergedRoots) && len(roots_cur) == len(roots) && fresh(roots_cur)
-//@   loop 1 invariant imp(tree != nil, fresh(tree) && tree.Mast != nil)
+//@   loop 1 invariant imp(tree != nil, fresh(tree) && tree.Mast != nil && fresh(tree.Mast))
 //@   loop 1 invariant forall j int :: imp(0 <= j && j < len(persists), persists[j] != nil)
 //@   loop 1 invariant forall j int :: imp(!skipUnreadable && 0 <= j && j <= rangeindex, has(mergedRoots, roots_cur[j]))
+
+// ---------------------------------------------------------------------------
+// Open (C11, C12, C13). A handle on named versions (OnlyVersions non-nil,
+// including the empty list = the empty version) is a function of exactly those
+// versions: no LIST is issued, mergeRoots runs strict on exactly that list,
+// and every named version ends up merged. A read-only open issues no PUT and
+// no DELETE.
+//@ func (*S3BucketInfo).fixPrefix
+//@   requires spc != nil
+//@   modifies spc.Prefix
+//@   ensures result == spc
+
+//@ func (S3BucketInfo).toPersist
+//@   modifies nothing
+//@   ensures result != nil && fresh(result) && result.Prefix == spc.Prefix + suffix && result.BucketName == spc.BucketName
+
+//@ func (S3BucketInfo).toPersistEncrypt
+//@   modifies nothing
+//@   ensures result != nil && fresh(result) && result.Persist != nil && fresh(result.Persist) && result.Persist.Prefix == spc.Prefix + suffix && result.Persist.BucketName == spc.BucketName && result.encryptor != nil
+
+//@ func Open
+//@   requires S3 != nil && cfg.Storage != nil
+//@   modifies lists, puts, deletes, lastPutPrefix, lastPutName, lastPutOK, cfg.Storage.Prefix
+//@   ensures readonly-no-write: imp(opts.ReadOnly, puts == old(puts) && deletes == old(deletes))
+//@   ensures named-no-list: imp(opts.OnlyVersions != nil, lists == old(lists))
+//@   ensures named-all-merged: forall j int :: imp(err == nil && opts.OnlyVersions != nil && 0 <= j && j < len(opts.OnlyVersions), has(result0.mergedRoots, opts.OnlyVersions[j]))
+//@   ensures named-readonly: imp(err == nil && len(opts.OnlyVersions) > 0, opts.ReadOnly)
+//@   ensures ok: imp(err == nil, result0 != nil && fresh(result0) && dbOK(result0) && result0.readonly == opts.ReadOnly)
+//@   ensures failed: imp(err != nil, result0 == nil)
+//@   at call:kv.mergeRoots assert named-strict: imp(opts.OnlyVersions != nil, !skipUnreadable)
+//@   at call:kv.mergeRoots assert named-exactly: imp(opts.OnlyVersions != nil, versionsToLoad == opts.OnlyVersions)
+//@   at call:kv.mergeRoots assert named-no-list-yet: imp(opts.OnlyVersions != nil, lists == old(lists))
